@@ -359,7 +359,7 @@ pub static C23: CheckDef = CheckDef {
     run: run_c23,
     quick_runs: 300_000,
     thorough_runs: 20_000_000,
-    rule: "encodings: a generated request (query text, operation name, variables and extensions with arbitrary characters) is encoded as a JSON body, as element i of a JSON batch, as a GET query string and as the operations part of a multipart body, each body delivered through a simulated reader (chunk sizes 1..4096, Pending gaps); all four must decode to the same query, operation name, variables and extensions, and decoding must not depend on the chunk schedule. stream-faults: truncation or an I/O error at a drawn byte: the result must equal the one-chunk decode of the bytes actually delivered (an injected I/O error must yield Err). batch-order: a JSON batch of 2-6 requests decodes in order and execute_batch returns response i for request i under drawn resolver completion orders. malformed: structurally broken variants of each encoding must be rejected with an error. Non-trivial = a body was delivered in >= 2 chunks or a fault fired or >= 2 batch resolvers were in flight; distinct = distinct event-order hashes.",
+    rule: "encodings: a generated request (query text, operation name, variables and extensions with arbitrary characters) is encoded as a JSON body, as element i of a JSON batch, as a GET query string and as the operations part of a multipart body, each body delivered through a simulated reader (chunk sizes 1..4096, Pending gaps); all four must decode to the same query, operation name, variables and extensions, and decoding must not depend on the chunk schedule. stream-faults: truncation or an I/O error at a drawn byte: the result must equal the one-chunk decode of the bytes actually delivered (an injected I/O error must yield Err). batch-order: a JSON batch of 2-6 (now and then 12-20, 30-34 or 60-139) requests decodes in order and execute_batch returns response i for request i under drawn resolver completion orders. malformed: structurally broken variants of each encoding must be rejected with an error. Non-trivial = a body was delivered in >= 2 chunks or a fault fired or >= 2 batch resolvers were in flight; distinct = distinct event-order hashes.",
     real: &["async_graphql::http::{receive_body, receive_batch_body, receive_json, receive_batch_json, parse_query_string}", "ReaderStream + multer (multipart)", "serde_json / serde_urlencoded decoding", "Schema::execute_batch"],
     stub: &["request body (simulated AsyncRead: chunking, Pending, truncation, I/O errors)", "resolvers of the batch schema (gated)", "async runtime"],
     assumptions: &["the equality of the four encodings is an input-level comparison riding on the simulated transport; what the technique adds is chunk-schedule independence, fault behaviour and batch ordering under completion orders"],
@@ -547,7 +547,17 @@ fn batch_schema() -> &'static Schema<BatchQuery, EmptyMutation, EmptySubscriptio
 
 fn c23_batch(out: &mut CaseOut) {
     world::reset_world();
-    let n = if chance(1, 8) { 12 + draw(9) as usize } else { 2 + draw(5) as usize };
+    // mostly 2-6 requests; now and then 12-20, and sizes around and beyond the thresholds at which
+    // joins and chunked executors change strategy (30-34, 60-140)
+    let n = match draw(16) {
+        0 | 1 => 12 + draw(9) as usize,
+        2 => 30 + draw(5) as usize,
+        3 => 60 + draw(80) as usize,
+        _ => 2 + draw(5) as usize,
+    };
+    if n > 30 {
+        sim::count("probe:batch-over-30-requests");
+    }
     // 0: Schema::execute_batch; 1: the Executor trait on a dynamic schema; 2: the Executor trait on
     // the static schema (how the web integrations call it)
     let via = draw(3);
